@@ -2064,6 +2064,11 @@ func buildRequestBodyType(body, att *expr.AttributeExpr, e *expr.HTTPEndpointExp
 		)
 		{
 			name = fmt.Sprintf("New%s", codegen.Goify(sd.Scope.GoTypeName(body), true))
+			if _, ok := body.Type.(*expr.Object); ok {
+				// Body("name") with an inline object: the Go type name
+				// is the struct definition.
+				name = fmt.Sprintf("New%sRequestBody", codegen.Goify(e.Name(), true))
+			}
 			desc = fmt.Sprintf("%s builds the HTTP request body from the payload of the %q endpoint of the %q service.",
 				name, e.Name(), svc.Name)
 			src := sourceVar
@@ -2100,6 +2105,11 @@ func buildRequestBodyType(body, att *expr.AttributeExpr, e *expr.HTTPEndpointExp
 			ReturnTypeAttribute: originFieldName(att, origin),
 			ClientCode:          code,
 			ClientArgs:          []*InitArgData{&arg},
+		}
+		if _, ok := body.Type.(*expr.Object); ok {
+			// the transform code initializes a pointer to the inline
+			// struct whose fields account for default values
+			init.ReturnTypeRef = "*" + sd.Scope.GoTypeRefWithDefaults(body)
 		}
 	}
 	return &TypeData{
